@@ -2,8 +2,16 @@
 
 Spec: spec/Nflog.tla.  MC: spec/mc/MC_Nflog.  Gen: Gen_Nflog (exhaustive short + simulated
 long behaviours) replayed on the real nflog.Log.  Trace: random runs of the real log at
-millisecond resolution validated by Trace_Nflog."""
-import json, os, re
+millisecond resolution validated by Trace_Nflog.
+
+Concurrent-history stage (spec/NflogConc.tla, spec/mc/{MC,Trace}_NflogConc, harness/c10
+TestConc): several goroutines call Log / Merge / Query / GC / MarshalBinary on ONE real log at
+the same time; call and return events are ordered by a global atomic counter and TLC decides
+whether some placement of the linearization points explains every recorded reply and the
+state at quiescence.  A round TLC cannot linearize is a VIOLATION after it was rejected a
+second time on its own; a direct oracle (the C10 statement at quiescence) runs after every
+round."""
+import json, os, re, threading, time
 from lib import vlib
 from lib.vlib import log
 
@@ -19,11 +27,187 @@ def check_constants():
             raise vlib.Inconclusive("Retention of %s differs from the harness" % cfg)
 
 
+# ------------------------------------------------------------------ concurrent histories
+CONC_TRACE = "trace_conc.ndjson"      # TraceFile of Trace_NflogConc.cfg
+
+
+def _tlc_conc(name, lines, wd, timeout=600):
+    """One TLC run of Trace_NflogConc on the given history lines.  Returns
+    (TLCResult, index of the first line that no placement of linearization points
+    reaches, or None if every line was consumed)."""
+    d = os.path.join(wd, "conc_" + name)
+    os.makedirs(d, exist_ok=True)
+    path = os.path.join(d, CONC_TRACE)
+    with open(path, "w") as f:
+        f.write("\n".join(lines) + "\n")
+    r = vlib.tlc(PID, "conc_" + name, "Trace_NflogConc", "Trace_NflogConc.cfg", workers=1,
+                 timeout=timeout, files=[path], deque=True)
+    txt = open(r.stdout_path, errors="replace").read()
+    if r.timed_out:
+        raise vlib.Inconclusive("validation of concurrent histories (%s) timed out" % name)
+    m = re.search(r'"@@REJECT",\s*(\d+)', txt)
+    if m:
+        return r, int(m.group(1)) - 1
+    if r.violated or r.error or r.rc != 0:
+        raise vlib.Inconclusive("validation of concurrent histories (%s): TLC trouble: %s (see %s)" %
+                                (name, r.violated or r.error or r.rc, r.stdout_path))
+    return r, None
+
+
+def _validate_chunk(name, lines, wd, out, max_rejects=3):
+    """Validates one chunk of concatenated rounds.  Rounds before a rejected round were
+    explained (the high-water mark passed them), so validation goes on behind it."""
+    n = 0
+    while lines and len(out["rejected"]) < max_rejects:
+        r, bad = _tlc_conc("%s_%d" % (name, n), lines, wd)
+        out["states"] += r.distinct
+        out["generated"] += r.generated
+        out["wall"] += r.wall
+        if bad is None:
+            out["events"] += len(lines)
+            return
+        run = json.loads(lines[bad])["run"]
+        out["events"] += sum(1 for x in lines[:bad] if json.loads(x)["run"] != run)
+        hist = [x for x in lines if json.loads(x)["run"] == run]
+        out["rejected"].append((run, json.loads(lines[bad]), hist))
+        last = max(i for i, x in enumerate(lines) if json.loads(x)["run"] == run)
+        lines = lines[last + 1:]
+        n += 1
+    out["unvalidated_lines"] += len(lines) if len(out["rejected"]) >= max_rejects else 0
+
+
+class ConcStage:
+    """Records the histories (alone, before the TLC jobs load the machine), then validates
+    them and model-checks NflogConc in background threads while the other stages run."""
+
+    def __init__(self, binp, wd, thorough, seed):
+        self.wd, self.thorough = wd, thorough
+        self.trace = os.path.join(wd, "conc.ndjson")
+        out = os.path.join(wd, "conc.json")
+        self.rounds = 20000 if thorough else 2000
+        t0 = time.time()
+        rc, txt = vlib.go_run_test(binp, "TestConc$", ["-trace", self.trace, "-out", out, "-n", str(self.rounds),
+                                                      "-seed", str(seed), "-filler", "300", "-renew", "40"])
+        if rc != 0:
+            raise vlib.Inconclusive("concurrent harness failed:\n" + txt[-3000:])
+        self.rec = vlib.load_result(out)
+        self.rec_wall = time.time() - t0
+        self.lines = open(self.trace).read().splitlines()
+        self.errors = []
+        self.chunks = []
+        self.mc = {}
+        self.threads = []
+        # chunks of whole rounds
+        nchunk = 8 if thorough else 2
+        starts = [i for i, x in enumerate(self.lines) if x.startswith('{"e":"reset"')]
+        if len(starts) != self.rec["cases"]:
+            raise vlib.Inconclusive("concurrent trace: %d reset lines for %d rounds" % (len(starts), self.rec["cases"]))
+        per = max(1, (len(starts) + nchunk - 1) // nchunk)
+        bounds = [starts[i] for i in range(0, len(starts), per)] + [len(self.lines)]
+        sem = threading.Semaphore(4)
+        for i in range(len(bounds) - 1):
+            res = {"rejected": [], "states": 0, "generated": 0, "wall": 0.0, "events": 0, "unvalidated_lines": 0}
+            self.chunks.append(res)
+            self._spawn(self._guard(sem, _validate_chunk, "c%d" % i, self.lines[bounds[i]:bounds[i + 1]], wd, res))
+        for name, cfg in (("mc_conc", "MC_NflogConc_thorough.cfg" if thorough else "MC_NflogConc.cfg"),
+                          ("mc_conc_split", "MC_NflogConc_split.cfg")):
+            self._spawn(self._guard(sem, self._mc, name, cfg))
+
+    def _mc(self, name, cfg):
+        self.mc[name] = vlib.tlc(PID, name, "MC_NflogConc", cfg, workers=4, timeout=1200 if self.thorough else 300)
+
+    def _guard(self, sem, f, *a):
+        def g():
+            with sem:
+                try:
+                    f(*a)
+                except Exception as e:           # re-raised by finish() in the main thread
+                    self.errors.append(e)
+        return g
+
+    def _spawn(self, g):
+        t = threading.Thread(target=g, daemon=True)
+        t.start()
+        self.threads.append(t)
+
+    def finish(self, v):
+        for t in self.threads:
+            t.join()
+        for e in self.errors:
+            if isinstance(e, vlib.Inconclusive):
+                raise e
+            raise vlib.Inconclusive("concurrent stage: %r" % e)
+        rec, wd = self.rec, self.wd
+        c = rec["counters"]
+        reported = set()
+        # (a) the direct oracle
+        for m in rec["mismatches"]:
+            if m["case"] in reported or len(reported) >= 3:
+                continue
+            reported.add(m["case"])
+            rp = os.path.join(wd, "conc_oracle_round_%d.json" % m["case"])
+            json.dump({"what": m["what"], "detail": m.get("got"), "history": m.get("replay")}, open(rp, "w"), indent=1)
+            v.violation("real nflog.Log under concurrent calls (round %d of the concurrent-history stage): %s: %s" %
+                        (m["case"], m["what"], json.dumps(m.get("got"))[:600]), [rp])
+        # (b) histories TLC cannot linearize: rejected again on their own = verdict
+        nrej = 0
+        for ch in self.chunks:
+            for run, ev, hist in ch["rejected"]:
+                nrej += 1
+                if nrej > 3:
+                    continue
+                r2, bad2 = _tlc_conc("recheck_%d" % run, hist, wd)
+                if bad2 is None:
+                    raise vlib.Inconclusive("round %d was rejected inside its chunk but accepted on its own: tool trouble" % run)
+                rp = os.path.join(wd, "conc_rejected_round_%d.ndjson" % run)
+                open(rp, "w").write("\n".join(hist) + "\n")
+                v.violation("concurrent history of the real nflog.Log has NO linearization under NflogConc.tla "
+                            "(round %d, %d events; rejected twice by TLC): no placement of the linearization points "
+                            "explains the recorded replies up to event %s" %
+                            (run, len(hist), json.dumps(json.loads(hist[bad2]))[:500]), [rp])
+        if not v.violations:
+            # the model itself
+            vlib.tlc_must_pass(self.mc["mc_conc"], "MC_NflogConc")
+            sp = self.mc["mc_conc_split"]
+            if sp.timed_out or sp.violated != "KeptUntilExpiry":
+                raise vlib.Inconclusive("MC_NflogConc_split (scan and delete in two critical sections) must violate "
+                                        "KeptUntilExpiry; TLC says %s (see %s)" % (sp.violated or sp.error, sp.stdout_path))
+            # vacuity / harness health
+            disc = c.get("discarded", 0)
+            if disc * 10 > self.rounds:
+                raise vlib.Inconclusive("concurrent stage: %d of %d rounds discarded (time discipline broken: %s)" %
+                                        (disc, self.rounds, {k: n for k, n in c.items() if k.startswith("trouble")}))
+            need = self.rounds // 10
+            if rec["nontrivial"] < need:
+                raise vlib.Inconclusive("concurrent stage: only %d rounds had a Log/Merge of an expired, uncollected key "
+                                        "overlapping a GC (need %d)" % (rec["nontrivial"], need))
+            for k in ("gc_overlaps_gc", "merge_overlaps_log_of_same_key", "query_overlaps_log_of_same_key",
+                      "snapshot_overlaps_write"):
+                if c.get(k, 0) < self.rounds // 100:
+                    raise vlib.Inconclusive("concurrent stage: window %s exercised only %d times" % (k, c.get(k, 0)))
+        self.states = sum(ch["states"] for ch in self.chunks)
+        self.events = sum(ch["events"] for ch in self.chunks)
+        self.tlc_wall = sum(ch["wall"] for ch in self.chunks)
+        log("  Conc: %d rounds (%d operations) recorded in %.1fs; %d with a write to an expired uncollected key overlapping a GC; "
+            "TLC: %d events explained, %d states, %.1fs cpu-wall over %d chunks, %d rounds rejected; oracle failures %d" %
+            (rec["cases"], rec["steps"], self.rec_wall, rec["nontrivial"], self.events, self.states, self.tlc_wall,
+             len(self.chunks), nrej, rec["n_mismatches"]))
+        mcc = self.mc.get("mc_conc")
+        if mcc:
+            log("  MC_NflogConc: %d states generated, %d distinct, %.1fs; split GC refuted: %s" %
+                (mcc.generated, mcc.distinct, mcc.wall, self.mc["mc_conc_split"].violated))
+
+
 def run(tier, v):
     check_constants()
     wd = os.path.join(vlib.OUT, PID)
     thorough = tier == "thorough"
     seed = vlib.seed()
+
+    binp = vlib.go_build_test(PID, "c10")
+
+    # 0. concurrent histories: recorded first, validated in the background
+    conc = ConcStage(binp, wd, thorough, seed)
 
     # 1. the design: exhaustive model checking of the C10 invariants
     mc = vlib.tlc(PID, "mc", "MC_Nflog", "MC_Nflog_thorough.cfg" if thorough else "MC_Nflog.cfg",
@@ -33,8 +217,6 @@ def run(tier, v):
     if dead:
         raise vlib.Inconclusive("MC_Nflog: actions never taken: %s" % dead)
     log("  MC_Nflog: %d states generated, %d distinct, depth %d, %.1fs" % (mc.generated, mc.distinct, mc.depth, mc.wall))
-
-    binp = vlib.go_build_test(PID, "c10")
 
     # 2. direction A: behaviours generated by TLC replayed on the real log
     gen1 = os.path.join(wd, "gen_exh.jsonl")
@@ -82,7 +264,10 @@ def run(tier, v):
                     (ev.get("_violated", "reply/state differs"), run, json.dumps(ev)[:600]), [rp])
     log("  Trace: %d runs, %d events validated, %d rejected" % (rec["cases"], rec["steps"], len(rejects)))
 
-    evaluations = sum(r["cases"] for r in results) + rec["cases"]
+    # 4. concurrent histories: verdicts of the background jobs
+    conc.finish(v)
+
+    evaluations = sum(r["cases"] for r in results) + rec["cases"] + conc.rec["cases"]
     nontrivial = sum(r["nontrivial"] for r in results)
     samples = [json.loads(json.dumps(results[1]["samples"][0]))[:6]] if results[1]["samples"] else []
     coverage = {
@@ -96,15 +281,31 @@ def run(tier, v):
         "rule": "behaviours are distinct operation sequences printed by TLC from Gen_Nflog (all of length 3; "
                 "simulated of length 40); non-trivial = contains a Merge that refuses or ignores an entry, or a GC that drops one",
         "mc_action_coverage": {a: g for a, (d, g) in mc.coverage.items()},
+        "concurrent": {
+            "rounds": conc.rec["cases"], "operations": conc.rec["steps"], "events_explained_by_tlc": conc.events,
+            "tlc_states": conc.states, "tlc_seconds": round(conc.tlc_wall, 1), "record_seconds": round(conc.rec_wall, 1),
+            "rounds_with_write_to_expired_uncollected_key_overlapping_gc": conc.rec["nontrivial"],
+            "windows": {k: n for k, n in conc.rec["counters"].items() if "overlaps" in k or "during_gc" in k or "noop" in k or "before" in k},
+            "discarded_rounds": conc.rec["counters"].get("discarded", 0),
+            "mc_nflogconc_states": conc.mc["mc_conc"].distinct if "mc_conc" in conc.mc else 0,
+            "mc_nflogconc_split_refuted": conc.mc["mc_conc_split"].violated if "mc_conc_split" in conc.mc else None,
+            "sample_history": conc.rec["samples"][:1],
+        },
         "samples": samples,
         "exhaustive": True,
-        "bounds": "MC: 2 keys, time 0..%s step 2, remote entries at odd instants, batches of 1-2; Gen: all histories of 3 ops + %d random of 40 ops; Trace: %d runs x 40 ops, ms resolution, 3 keys" % ("10" if thorough else "6", g2.behaviours, rec["cases"]),
+        "bounds": "MC: 2 keys, time 0..%s step 2, remote entries at odd instants, batches of 1-2; Gen: all histories of 3 ops + %d random of 40 ops; Trace: %d runs x 40 ops, ms resolution, 3 keys; Conc: %d rounds of 3-4 goroutines x 2-4 operations (+ 4-5 sequential ones at quiescence) on 2-3 fresh keys over a log with 300+ live filler entries, real clock" % ("10" if thorough else "6", g2.behaviours, rec["cases"], conc.rec["cases"]),
     }
     assumptions = [
         "timestamps of different entries of one key are distinct (the property's quantifier); generators keep local timestamps even and remote ones odd",
         "a newer entry never expires before an older one in the gossip pool (DESIGN.md F7 corner is outside NewestHeld)",
         "batches given to Merge have pairwise distinct keys, as every marshalled state has",
-        "virtual time (testing/synctest) stands for the wall clock",
+        "virtual time (testing/synctest) stands for the wall clock (sequential stages)",
+        "concurrent stage: nflog.Log reads time.Now() itself (no clock option), so every expiry and every remote timestamp of a round lies "
+        "well before or well after the round (margins 20 us .. 20 min, rounds that break them are discarded); instants inside a round are "
+        "compared through their ranks; the order of events is that of a global atomic counter taken before each call and after each return "
+        "(recorded intervals contain the real ones, so every real linearization is admitted)",
+        "concurrent stage: detection of a race is probabilistic (start delays up to 12 us, 300 filler entries lengthen the critical sections); "
+        "a race whose window is far below a microsecond or that needs more than 4 goroutines may be missed",
     ]
     return "model_checking", coverage, assumptions
 
